@@ -29,6 +29,7 @@ func newIdTuple(bndl *bpv7.Bundle) idTuple {
 // outbounding bundles.
 type IdKeeper struct {
 	data      map[idTuple]uint64
+	lastUse   map[idTuple]bpv7.DtnTime
 	mutex     sync.Mutex
 	autoClean bool
 }
@@ -37,6 +38,7 @@ type IdKeeper struct {
 func NewIdKeeper() IdKeeper {
 	return IdKeeper{
 		data:      make(map[idTuple]uint64),
+		lastUse:   make(map[idTuple]bpv7.DtnTime),
 		autoClean: true,
 	}
 }
@@ -54,6 +56,7 @@ func (idk *IdKeeper) update(bndl *bpv7.Bundle) {
 	}
 
 	bndl.PrimaryBlock.CreationTimestamp[1] = idk.data[tpl]
+	idk.lastUse[tpl] = bpv7.DtnTimeNow()
 	idk.mutex.Unlock()
 
 	if idk.autoClean {
@@ -61,15 +64,18 @@ func (idk *IdKeeper) update(bndl *bpv7.Bundle) {
 	}
 }
 
-// clean removes states which are older an hour and aren't the epoch time.
+// clean removes states which were not used for a day and aren't the epoch time. The age of a state is the time of
+// its last use, not its bundles' creation time: an application might submit bundles with a creation time of its own.
 func (idk *IdKeeper) clean() {
 	idk.mutex.Lock()
 
-	var threshold = bpv7.DtnTimeNow() - 60*60*24
+	// DtnTime counts milliseconds.
+	var threshold = bpv7.DtnTimeNow() - 24*60*60*1000
 
 	for tpl := range idk.data {
-		if tpl.time < threshold && tpl.time != bpv7.DtnTimeEpoch {
+		if idk.lastUse[tpl] < threshold && tpl.time != bpv7.DtnTimeEpoch {
 			delete(idk.data, tpl)
+			delete(idk.lastUse, tpl)
 		}
 	}
 	idk.mutex.Unlock()
